@@ -181,9 +181,18 @@ def differential(chunk=None):
         if got != "A\0z":
             bad += 1
             print("M5 mismatch", repr(got))
+        # M8: ASCII upper / lower on every 7-bit character
+        from crosshair.libimpl.builtinslib import LazyIntSymbolicStr
+        for lo in range(0, 128, 16):
+            with NoTracing():
+                st = LazyIntSymbolicStr([pinned(c) for c in range(lo, lo + 16)])
+            ref = "".join(chr(c) for c in range(lo, lo + 16))
+            if deep_realize(st.upper()) != ref.upper() or deep_realize(st.lower()) != ref.lower():
+                bad += 1
+                print("M8 mismatch", lo)
     print("differential: %d comparisons, %d mismatches" % (n, bad))
     print("model hits:", chmodels.STATS["model_hits"], "fallbacks:", chmodels.STATS["model_fallbacks"])
-    must = {"M1", "M2", "M3", "M4", "M5", "M6"}
+    must = {"M1", "M2", "M3", "M4", "M5", "M6", "M8"}
     if not must <= set(chmodels.STATS["model_hits"]):
         print("some model was never exercised:", must - set(chmodels.STATS["model_hits"]))
         return False
